@@ -4,7 +4,9 @@ impl  : Curve.self_intersections(), hazmat.geometric_intersection.self_intersect
         recursion on top of all_intersections), hazmat.curve_helpers.discrete_turning_angle
 model : driver `turning_below_pi` (algebraic decision of discrete_turning_angle < pi), `self_intersections` when linked
 spec  : planted crossings (nets solved in exact rationals so that B(a) = B(b)), exact residuals,
-        hodograph-in-a-half-plane certificate for "no self-intersection"
+        hodograph-in-a-half-plane certificate for "no self-intersection"; a self-crossing is a PAIR (s1, s2): nets with several
+        branches through one point (B(a) = B(b) = B(c) ...) have crossings that share a parameter, every one certified by the
+        exact isolator and required exactly once
 """
 import math
 import os
@@ -78,6 +80,138 @@ def nested_planted(rnd, n, off=Fr(1, 96)):
     if max(abs(x) for r in rows for x in r) > 64:
         return None
     return rows
+
+
+def solve_exact(A, B):
+    """exact Gauss-Jordan elimination over the rationals: the solution x of A x = B (B a column), None when A is singular"""
+    m = len(A)
+    M = [list(A[i]) + [B[i]] for i in range(m)]
+    for c in range(m):
+        p = next((r for r in range(c, m) if M[r][c] != 0), None)
+        if p is None:
+            return None
+        M[c], M[p] = M[p], M[c]
+        inv = 1 / M[c][c]
+        M[c] = [x * inv for x in M[c]]
+        for r in range(m):
+            if r != c and M[r][c] != 0:
+                f = M[r][c]
+                M[r] = [x - f * y for x, y in zip(M[r], M[c])]
+    return [row[m] for row in M]
+
+
+def concurrent_planted(rnd, n, pairs, bound=64, representable=False):
+    """degree-n net with B(p) = B(q) for every (p, q) of `pairs` (rational parameters): one linear condition per pair and
+    coordinate, solved exactly for len(pairs) interior control values, the other control values small integers; the net is then
+    rounded to binary64 (the crossings of the ROUNDED net are certified by the isolator, nothing is assumed about them).
+    pairs [(a, b), (a, c)] gives three branches through one point - the three self-crossings (a, b), (a, c), (b, c) share their
+    parameters pairwise; [(a, b), (a, c), (a, d)] four branches (six crossings); [(a, b), (a + delta, c)] three branches that
+    miss a common point by about delta (three crossings whose shared parameters differ by about delta).
+    representable=True (dyadic parameters): the solved net is multiplied by its common denominator and by a power of two instead
+    of being rounded - an exactly representable net on which the planted identities hold EXACTLY, with the crossing parameters
+    on break points k/2^m of the bisection (the halves and the pair left x right then report the same crossing, and the merge of
+    those repeats meets the crossings that share a parameter)"""
+    m = len(pairs)
+    if n - 1 < m:
+        return None
+    P = [[basis(n, j, p) - basis(n, j, q) for j in range(n + 1)] for p, q in pairs]
+    idx = sorted(rnd.sample(range(1, n), m))
+    A = [[R[j] for j in idx] for R in P]
+    rows = []
+    for _ in range(2):
+        v = [Fr(rnd.randint(-12, 12)) for _ in range(n + 1)]
+        sol = solve_exact(A, [-sum(R[j] * v[j] for j in range(n + 1) if j not in idx) for R in P])
+        if sol is None:
+            return None
+        for k, j in enumerate(idx):
+            v[j] = sol[k]
+        rows.append(v)
+    if representable:
+        den = math.lcm(*[x.denominator for r in rows for x in r])
+        top = max(abs(x) for r in rows for x in r) * den
+        if top == 0 or top >= 2 ** 50:
+            return None
+        scale = Fr(den, 2 ** max(0, int(top).bit_length() - 6))
+        rows = [[x * scale for x in r] for r in rows]
+        if not all(C.is_exact_float(x) for r in rows for x in r):
+            return None
+    if max(abs(x) for r in rows for x in r) > bound:
+        return None
+    # every planted crossing clearly transversal (exact tangents of the exact net): sin^2 of the crossing angle >= 1/64
+    pts = sorted(set(x for pq in pairs for x in pq))
+    tan = [(d1(rows[0], x), d1(rows[1], x)) for x in pts]
+    for i in range(len(pts)):
+        for k in range(i + 1, len(pts)):
+            if pts[k] - pts[i] < Fr(1, 8):
+                continue          # the two parameters of a pair that is ALMOST shared (nearly concurrent branches): same branch
+            cr = tan[i][0] * tan[k][1] - tan[i][1] * tan[k][0]
+            if cr * cr * 64 < (tan[i][0] ** 2 + tan[i][1] ** 2) * (tan[k][0] ** 2 + tan[k][1] ** 2):
+                return None
+    return [[Fr(float(x)) for x in r] for r in rows]
+
+
+def spread_parameters(rnd, m, lo, hi):
+    """m parameters k/101 in (lo, hi) (never within 1e-5 of a break point k/2^j, j <= 8, of the bisection), consecutive gaps
+    >= 20/101 > 3/16 so that every pair of them is covered by the isolator's seven sub-curve pairs; None when impossible"""
+    klo, khi = math.floor(lo * 101) + 1, math.ceil(hi * 101) - 1
+    if khi - klo < 20 * (m - 1):
+        return None
+    for _ in range(200):
+        ps = sorted(rnd.randint(klo, khi) for _ in range(m))
+        if all(b - a >= 20 for a, b in zip(ps, ps[1:])):
+            return [Fr(k, 101) for k in ps]
+    return None
+
+
+def concurrent_cases(rnd, reps, thorough):
+    """the family 'several branches of the curve through one point' (and its neighbourhood): list of (nodes, family)"""
+    out = []
+
+    def attempt(n, make, family, want, representable=False):
+        got = 0
+        for _ in range(60 * want):
+            pairs = make()
+            nodes = concurrent_planted(rnd, n, pairs, representable=representable) if pairs else None
+            if nodes is not None:
+                out.append((nodes, family))
+                got += 1
+                if got >= want:
+                    break
+
+    def through_one_point(m, lo, hi):
+        def make():
+            ps = spread_parameters(rnd, m, lo, hi)
+            return ps and [(ps[0], q) for q in ps[1:]]
+        return make
+
+    def dyadic_through_one_point():
+        den = rnd.choice([4, 8, 16])
+        ps = [Fr(k, den) for k in sorted(rnd.sample(range(1, den), 3))]
+        return [(ps[0], ps[1]), (ps[0], ps[2])] if min(ps[1] - ps[0], ps[2] - ps[1]) >= Fr(3, 16) else None
+
+    def nearly(shared_first):
+        # the parameters shared by two of the three crossings differ by +-2^-k, k around the library's merge threshold 2^-36
+        def make():
+            ps = spread_parameters(rnd, 3, Fr(0), Fr(1))
+            if not ps:
+                return None
+            delta = rnd.choice([-1, 1]) * Fr(1, 2 ** rnd.choice([26, 30, 34, 36, 38, 42, 48]))
+            a, b, c = ps
+            return [(a, b), (a + delta, c)] if shared_first else [(a, c), (b, c + delta)]
+        return make
+
+    per = max(1, reps // 6) if not thorough else reps // 2
+    for n in range(5, 9):
+        # three branches through one point, anywhere / all three parameters inside one half of the first bisection (the three
+        # crossings are then merged at a deeper level of the recursion)
+        attempt(n, through_one_point(3, Fr(0), Fr(1)), "concurrent-3", per)
+        attempt(n, through_one_point(3, *rnd.choice([(Fr(0), Fr(1, 2)), (Fr(1, 2), Fr(1))])), "concurrent-3-in-one-half", per)
+        attempt(n, dyadic_through_one_point, "concurrent-3-dyadic", per, representable=True)
+        attempt(n, nearly(n % 2 == 1), "nearly-concurrent-3", per)
+        attempt(n, nearly(n % 2 == 0), "nearly-concurrent-3", per if thorough else 0)
+    for n in range(7, 9):
+        attempt(n, through_one_point(4, Fr(0), Fr(1)), "concurrent-4", per)
+    return out
 
 
 def certified_self_crossings(nodes):
@@ -205,6 +339,14 @@ def main():
                 add("turning-angle", nodes=G.int_net(rnd, 2, n + 1, 6))
                 add("large-turning", nodes=G.int_net(rnd, 2, n + 1, 8))
         add("nonterminating", nodes=[[Fr(0), Fr(0), Fr(-1)], [Fr(0), Fr(0), Fr(0)]])
+        # (generated last: the streams of the families above are unchanged)
+        # SEVERAL BRANCHES THROUGH ONE POINT: B(a) = B(b) = B(c) (degree 5..8; four branches from degree 7): the self-crossings
+        # (a, b), (a, c), (b, c) are three ordinary transversal crossings that share their parameters pairwise - a crossing is a
+        # PAIR of parameters, two crossings with one equal coordinate are different crossings and each must be returned once;
+        # also three branches that miss a common point by 2^-26 .. 2^-48 in the parameter (around the merge threshold 2^-36).
+        # Rounded nets; every crossing is certified on the rounded net by the exact isolator
+        for nodes, family in concurrent_cases(rnd, reps, thorough):
+            add("random-net", nodes=nodes, family=family)
 
     drv = C.Driver()
     midx = []
@@ -354,10 +496,22 @@ def main():
                         return any(math.ceil(lo * 2 ** m) <= math.floor(hi * 2 ** m) for m in range(0, 9))
                     at_break = not hits and near_dyadic(c["s"]) and near_dyadic(c["t"]) and \
                         max(abs(X.bern(r, Fr(round(c["s"][0] * 256), 256)) - X.bern(r, Fr(round(c["t"][0] * 256), 256))) for r in exact_nodes) != 0
+                    # a property of the INPUT: another certified crossing has a parameter within 2^-26 of one of this crossing's
+                    # parameters (three or more branches of the curve pass through - nearly - one point)
+                    def close(u, v):
+                        return u[0] - Fr(1, 2 ** 26) <= v[1] and v[0] - Fr(1, 2 ** 26) <= u[1]
+                    partners = [o for o in crossings if o is not c and any(close(u, v) for u in (c["s"], c["t"]) for v in (o["s"], o["t"]))]
+                    shared = ""
+                    if partners and not at_break:
+                        shared = ":shares-a-parameter-with-another-crossing"
                     res.failure("self:crossing-within-rounding-of-break-points-missed" if at_break else
-                                "self:certified-crossing-missed" if not hits else "self:certified-crossing-duplicated",
-                                "degree %d integer net: the certified transversal self-crossing near (%.9f, %.9f) (sin^2 >= %.3g) is returned "
-                                "%d times; returned %s" % (n, float(c["s"][0]), float(c["t"][0]), float(c["sin2"]), len(hits),
+                                ("self:certified-crossing-missed" if not hits else "self:certified-crossing-duplicated") + shared,
+                                "degree %d %s: the certified transversal self-crossing near (%.9f, %.9f) (sin^2 >= %.3g) is returned "
+                                "%d times%s; returned %s" % (n, "net (family %s)" % kw["family"] if kw.get("family") else "integer net",
+                                                           float(c["s"][0]), float(c["t"][0]), float(c["sin2"]), len(hits),
+                                                           "; it shares a parameter (up to 2^-26) with the certified crossing(s) %s - several "
+                                                           "branches through one point, each pair of branches is a crossing of its own" %
+                                                           [(float(o["s"][0]), float(o["t"][0])) for o in partners] if shared else "",
                                                            [(float(x), float(y)) for x, y in cols]), rc)
         elif kind == "planted":
             a, b = kw["a"], kw["b"]
